@@ -440,10 +440,19 @@ func (p *Proxy) handleConnectRequest(ctx *Context, req *http.Request, session *S
 	// open, and whatever brw still held when the tunnel ended was never sent.
 	// Bytes that arrived behind the CONNECT head are already in brw.Reader;
 	// copying from it forwards them first, then the rest of the connection.
-	copySync := func(w io.Writer, r io.Reader, donec chan<- bool) {
+	//
+	// When one direction ends (its source reached end-of-stream, or its
+	// destination is gone) the end-of-stream is passed on to the destination
+	// right away, after everything read so far has been written: otherwise the
+	// peer would wait for it until the other direction ends too, which may be
+	// never (a target that answers only once the request is complete, a client
+	// waiting for the target to close). Both connections are closed once both
+	// directions have ended.
+	copySync := func(w net.Conn, r io.Reader, donec chan<- bool) {
 		if _, err := io.Copy(w, r); err != nil && err != io.EOF {
 			log.Errorf("martian: failed to copy CONNECT tunnel: %v", err)
 		}
+		closeWrite(w)
 
 		log.Debugf("martian: CONNECT tunnel finished copying")
 		donec <- true
@@ -459,6 +468,19 @@ func (p *Proxy) handleConnectRequest(ctx *Context, req *http.Request, session *S
 	log.Debugf("martian: closed CONNECT tunnel")
 
 	return errClose
+}
+
+// closeWrite signals end-of-stream to the peer of conn. Connections that can
+// shut down their write side alone (TCP, TLS) keep the opposite direction
+// usable; any other connection is closed, which also ends the opposite
+// direction.
+func closeWrite(conn net.Conn) {
+	if cw, ok := conn.(interface{ CloseWrite() error }); ok {
+		if err := cw.CloseWrite(); err == nil {
+			return
+		}
+	}
+	conn.Close()
 }
 
 func (p *Proxy) handle(ctx *Context, conn net.Conn, brw *bufio.ReadWriter) error {
